@@ -166,6 +166,24 @@ def rule_pandas(ctx):
             ctx.violation("C01.c", "pandas_tools", "_insert_df", "returned count", m.loc(fn),
                           f"write_pandas reports `{tagof(ret)}` rows instead of the count the engine returned for the INSERT")
     ctx.floor("C01.c paths", n, 1)
+    # every object column is encoded on every path: the only way past the encoder is "the frame has no object column"
+    n_enc = 0
+    for p in explore(prog, lambda: ExecHooks(None), run, max_paths=32):
+        if p.outcome != "return":
+            continue
+        n_enc += 1
+        stores = [e for e in p.effects if e[0] == "setitem" and any(t in tagof(e[3]) for t in (".apply(", ".map(", ".applymap(", ".transform("))]
+        no_object_columns = any(v is False and t.startswith("nonempty(") and "select_dtypes" in t for t, v in p.assumed)
+        other = [(t, v) for t, v in p.assumed if not (t.startswith("nonempty(") and "select_dtypes" in t)]
+        ok = bool(stores) or no_object_columns
+        ctx.ob("C01.c", "every object column is passed through the JSON encoder (skipped only when the frame has none)", ok, m.loc(fn),
+               "" if ok else f"skipped under {other}")
+        if not ok:
+            ctx.violation("C01.c", "pandas_tools", "_insert_df", "object column left unencoded on a data-dependent path", m.loc(fn),
+                          f"on a path decided by {[t for t, _ in other][:3]} an object column reaches the INSERT without the dict/list -> JSON "
+                          f"encoding: whether a column is encoded must not depend on the value of some of its cells (a NULL or a string in the "
+                          f"first row hands raw dicts to DuckDB)")
+    ctx.floor("C01.c encoder paths", n_enc, 2)
     # dict/list cells are json-encoded
     dumps = [c for c in ast.walk(fn) if isinstance(c, ast.Call) and norm(c.func) == "json.dumps"]
     guarded = any(isinstance(p, ast.IfExp) and "isinstance" in norm(p.test) and "dict" in norm(p.test) and "list" in norm(p.test)
